@@ -52,7 +52,7 @@ func NewDNS(ctx context.Context, logger *zap.Logger, kv chord.KV, email, domain 
 func (d *DNS) initStatic(email string, ns map[string][]string) {
 	nameservers := make([]string, 0)
 	for ns, ips := range ns {
-		ns = dns.Fqdn(ns)
+		ns = strings.ToLower(dns.Fqdn(ns)) // records are looked up by lower-cased query name
 
 		nsRR := new(dns.NS)
 		nsRR.Hdr = dns.RR_Header{Name: d.domain, Rrtype: dns.TypeNS, Class: dns.ClassINET, Ttl: 3600}
@@ -151,7 +151,7 @@ func (d *DNS) isImmediate(q dns.Question) bool {
 	qname := strings.ToLower(q.Name)
 	query := strings.Split(qname, ".")
 	self := strings.Split(d.domain, ".")
-	return strings.HasSuffix(qname, d.domain) &&
+	return (qname == d.domain || strings.HasSuffix(qname, "."+d.domain)) &&
 		len(query) >= len(self) &&
 		len(query)-len(self) <= 1
 }
@@ -197,11 +197,11 @@ func (d *DNS) answerTXT(q dns.Question) ([]dns.RR, error) {
 	var ra []dns.RR
 
 	qname := strings.ToLower(q.Name)
-	idx := strings.Index(qname, d.domain)
-	if idx <= 0 {
+	// the label in front of the zone: match the zone as a suffix on a label boundary
+	if !strings.HasSuffix(qname, "."+d.domain) {
 		return ra, nil
 	}
-	subdomain := qname[0 : idx-1]
+	subdomain := qname[0 : len(qname)-len(d.domain)-1]
 
 	callCtx, cancel := context.WithTimeout(d.parentCtx, timing.DNSLookupTimeout)
 	defer cancel()
